@@ -161,6 +161,7 @@ func c17Valid(tier string) []string {
 		`(a)`, `(a | b)`, `(a | b)[1]`, `(a)/b`, `(//a)[2]/b`, `((a))`, `(1 + 2) * 3`, `-(a)`, `a | b | c`, `a[b][c]`, `a[(b)]`, `a[b[c]]`, `a[(b or c) and d]`,
 		`p:a`, `p:a/q:b`, `@p:a`, `child::p:a`, `p:*`, `//p:a[@q:b = 'x']`, `a[@b = "it's"]`, `a[. = 'say "x"']`, `/`, `/a`, `//a`, `a/b//c/@d`, `../a`, `./a`, `a/..`,
 		`ancestor::a[1]`, `following-sibling::*[last()]`, `descendant-or-self::node()/a`, `self::a`, `attribute::*`, `parent::a/child::b`, `preceding::text()`,
+		`a/(b, c)`, `//a/(b, c, d)`, `a/(b[1], @c)/d`, `a/(b, c)[1]`, `*/(text(), comment())`, `a/(b)`, `/a/(b, c)/..`, `a[b/(c, d)]`, `count(a/(b, c))`, `a/(child::b, descendant::c)`,
 		`a + b - c`, `a * b div c mod d`, `a = b != c`, `a < b <= c > d >= e`, `a or b and c`, `- a`, `--a`, `1`, `1.5`, `.5`, `'s'`, `"s"`)
 	// a nested call, a path with an explicit axis and a prefixed name in EVERY
 	// argument position of every function (damage inside an argument must not
@@ -212,13 +213,13 @@ func c17Spaces(tier string) []*explore.Space {
 				w.Count("base_not_valid_for_reference", 1)
 				return
 			}
-			if _, err := ref.ParseTokens(toks); err != nil {
+			if _, err := ref.ParseExt(s); err != nil {
 				w.Count("base_not_valid_for_reference", 1)
 				return
 			}
 			w.Sample(s)
 			for _, d := range damages(s, toks) {
-				if _, err := ref.Parse(d.s); err == nil {
+				if _, err := ref.ParseExt(d.s); err == nil {
 					// the damaged string is still a valid XPath 1.0 expression (e.g. "1 + /")
 					w.Count("damage_still_valid", 1)
 					continue
@@ -245,7 +246,7 @@ func c17Spaces(tier string) []*explore.Space {
 }
 
 func skelOrRaw(s string) string {
-	if ast, err := ref.Parse(s); err == nil {
+	if ast, err := ref.ParseExt(s); err == nil {
 		return gen.Skeleton(ast)
 	}
 	return s
